@@ -14,6 +14,7 @@ from pv.codec import build, Env, D0, token, vtoken
 
 ASSUMPTIONS = [
     'key cells: None, ints {1,2}, floats {1.0,2.5}, NaN objects (two identities), strings {"a","1"}, two datetimes - no bools (cmp ranks True apart from 1 while == does not)',
+    "x.xor(y, mode='r') (documented as 'what is in y but not in x') is checked as the mirrored anti-join whenever the generated mode is r/right/1",
     'xor is claimed with >= 1 key column: with no key column it returns x unchanged, which tests/test_dictable.py::test_dictable_xor_no_rhs pins as intended',
     'computed keys (callables) read columns whose names do not collide with the key-column name given by the other side',
     'with different key names left/right the result names the key after the left spelling and carries the right key column as an ordinary right column',
@@ -258,6 +259,21 @@ def run_join(spec):
                 check((k in jkeys) != (k in xkeys), '%s: row with key %s of x lies in %s', what, lkey(l),
                       'both x*y and x/y' if k in jkeys else 'neither x*y nor x/y')
         nmatch = len(L) - len(unmatched)
+        # the mirrored spelling documented in xor's docstring: x.xor(y, mode='r') is what is in y but not in x
+        if spec['mode'] in ('r', 'right', 1):
+            what_r = what.replace('xor(', 'xor[mode=r](', 1)
+            if lcols is None and rcols is None:
+                res_r = call_fuel(what_r, limit, lambda: x.xor(y, mode=spec['mode']))
+            else:
+                res_r = call_fuel(what_r, limit, lambda: x.xor(y, lcols, rcols, mode=spec['mode']))
+            check(isinstance(res_r, dictable), '%s returned %s', what_r, type(res_r).__name__)
+            unmatched_r = [r for r in R if not any(all(keq(a, b) for a, b in zip(lkey(l), rkey(r))) for l in L)]
+            exp_r = Counter(tuple(sorted((c, token(r[c])) for c in rc)) for r in unmatched_r)
+            cols_r = list(res_r.keys())
+            got_r = Counter(tuple(sorted((c, token(row[c])) for c in cols_r)) for row in res_r)
+            if got_r != exp_r:
+                raise Violation("%s: differs from the rows of y without a partner in x: expected %i rows %s, got %i rows %s"
+                                % (what_r, len(unmatched_r), short(sorted(exp_r.elements()), 250), len(res_r), short(sorted(got_r.elements()), 250)))
     check(_same(sx, x), '%s modified its left operand: now %s', what, dict(x))
     check(_same(sy, y), '%s modified its right operand: now %s', what, dict(y))
 
